@@ -9,7 +9,7 @@ LEVEL_TEXT = ('Bounded symbolic model checking (CBMC) of the real text kernels t
               'exact and memory safe; moveToUCIString/uciStringToMove and squareToString/getSquare round trips for all moves/squares), the character-level scanner of '
               'readFEN on every short byte string and on every tail after three fixed piece-placement fields (no out-of-range board index, no std::string precondition '
               'violation, only ChessParseError as rejection, accepted result equals an independent reading of the FEN fields), util trim() and the UCI tokenizer on '
-              'every line up to the bound. Outside the claim: SAN (moveToString/stringToMove: legal-move-list driven, std::vector<Move> of matches, move generation), '
+              'every line up to the bound. and the capture test behind the x of algebraic notation (isCapture) on symbolic positions of up to 4 (thorough 5) men. Outside the claim: the rest of SAN (moveToString/stringToMove: legal-move-list driven std::string building, std::vector<Move> of matches, move generation), '
               'toFEN (stringstream number formatting), the numeric conversion std::stoi/strtol, fixupEPSquare/inCheck (move generation, C01), the PGN scanner/writer of '
               'gametree.cpp (iostream based), and the command dispatch of handleCommand behind the tokenizer.')
 ASSUMPTIONS = ['string lengths bounded per obligation (see bounds); all strings produced inside the lowered code then fit the 15-byte SSO buffer, so the heap path of '
@@ -35,7 +35,7 @@ SYMLOOPS = ','.join('_ZN6SymStr12makePrefixedB5cxx11EPKcmmm.%d:42' % i for i in 
 RF = '_ZN6TextIO7readFENERKNSt7__cxx1112basic_stringIcSt11char_traitsIcESaIcEEE'
 TK = '_ZN11UCIProtocol8tokenizeERKNSt7__cxx1112basic_stringIcSt11char_traitsIcESaIcEEERSt6vectorIS5_SaIS5_EE.0'
 TR = '_Z4trimRKNSt7__cxx1112basic_stringIcSt11char_traitsIcESaIcEEE'
-PREFIX = {1: '4k3/8/8/3pP3/8/8/8/4K3 ', 2: 'r3k2r/8/8/8/3Pp3/8/8/R3K2R ', 3: '4k3/8/8/8/8/8/8/4K3'}   # must match harness/C17/fen.cpp
+PREFIX = {1: '4k3/8/8/3pP3/8/8/8/4K3 ', 2: 'r3k2r/8/8/8/3Pp3/8/8/R3K2R ', 3: '4k3/8/8/8/8/8/8/4K3', 4: '4k3/8/3N4/3pP3/8/8/8/4K3 ', 5: '4k3/8/8/8/3Pp3/3n4/8/4K3 '}   # must match harness/C17/fen.cpp
 
 def build(tier):
     quick = tier == 'quick'
@@ -86,7 +86,7 @@ def build(tier):
                functions=fenfn, bounds='every byte string of length 0..%d; unwinding: 64-square loops 66, readFEN loops length+2 (unwinding assertions)' % anylen, stubs=fenstubs)]
     obs += [Ob('O2b-fen-tail@%d' % k, uf, 'h_fen_tail', 'readFEN on "%s" + arbitrary tail (short/garbled side, castling, en-passant and counter fields, e.g. a 1-byte en-passant token at the end of the string): ' % PREFIX[k] + fendesc,
                unwind=66, unwindset=rfset(len(PREFIX[k]) + tail + 2, tail + 3), param=k, core=False, timeout=1200 if quick else 7200, mem_gb=12,
-               functions=fenfn, bounds='fixed placement field, every tail of 0..%d bytes' % tail, stubs=fenstubs) for k in (1, 2, 3)]
+               functions=fenfn, bounds='fixed placement field, every tail of 0..%d bytes' % tail, stubs=fenstubs) for k in (1, 2, 3, 4, 5)]
     # ------------------------------------------------------------------ O3: trim + UCI tokenizer
     toklen = 6 if quick else 8
     TOKAL = dict(GLIBCXX)
@@ -102,4 +102,23 @@ def build(tier):
                unwind=max(n + 2, 8), unwindset=tokset(n), param=n, core=False, timeout=900 if quick else 3600, mem_gb=12,
                functions=['UCIProtocol::tokenize (uciprotocol.cpp:307-329)', 'trim (util.cpp)', 'std::vector<std::string>::clear/push_back/emplace_back (real)', 'basic_string move constructor'] + strfn,
                bounds='every line of exactly %d bytes (case split over the length)' % n, stubs=tokstubs) for n in range(0, toklen + 1)]
-    return [u, uf, ut], obs
+    # ------------------------------------------------------------------ O4: the capture test behind the 'x' of algebraic notation (list-of-men oracle of C01)
+    SUBST = {'_ZN8BitBoard11rookAttacksE6Squarem': 'model_rookAttacks', '_ZN8BitBoard13bishopAttacksE6Squarem': 'model_bishopAttacks', '_ZN7BitUtil8firstBitEm': 'model_firstBit', '_ZN7BitUtil7lastBitEm': 'model_lastBit'}
+    units = [u, uf, ut]
+    for K in ([4] if quick else [4, 5]):
+        us = Unit('san%d' % K, 'C17/san.cpp', ['h_iscapture'], defines={'NMEN': K},
+                  allow_extern=[r'_ZN11NNEvaluator.*', r'_ZNSt.*', r'_ZNKSt.*', r'_ZSt.*', r'_ZN6TextIO.*', r'_ZN7MoveGen.*', r'_Z.*ChessParseError.*', r'__cxa_\w+', r'_ZT[VI].*', r'_Z7num2Str.*', r'_Z9splitLines.*', r'_ZN8BitBoard.*', r'_ZN7BitUtil.*'])
+        units.append(us)
+        for col in (0, 1):
+            for cls, kind in ((6, 'pawn'), (0, 'any kind')):
+                if K == 5 and cls == 0: continue
+                par = 2 + K * (col + 2 * cls)
+                obs.append(Ob('O4-iscapture-K%d@%d' % (K, par), us, 'h_iscapture', 'positions of up to %d men, a %s man of %s moves: isCapture(pos, m) <=> the destination is occupied or m captures en passant, for every pseudo-legal move' % (K, 'white' if col else 'black', kind),
+                              unwind=65, param=par, core=(K == 4), timeout=1800, mem_gb=12, backend='kissat', functions=['isCapture (textio.cpp:339-346, file-static)', 'Position::getPiece/getEpSquare/isWhiteMove'],
+                              stubs=['none in the code under test (the oracle decides line of sight with the ray-fill model of C01)'],
+                              bounds='two kings + up to %d further men of any kind on any squares; any side/castling/ep state the FEN reader accepts; every (to, promotion) of the mover' % (K - 2)))
+        for j, who in ((0, 'white king'), (1, 'black king')):
+            if K == 5: continue
+            obs.append(Ob('O4-iscapture-K%d@%d' % (K, j), us, 'h_iscapture', 'positions of up to %d men, the %s moves (ordinary steps): isCapture <=> destination occupied' % (K, who), unwind=65, param=j, core=True, timeout=1800, mem_gb=12,
+                          backend='kissat', functions=['isCapture (textio.cpp:339-346)'], bounds='two kings + up to %d further men' % (K - 2)))
+    return units, obs
